@@ -525,6 +525,7 @@ func (m *Model) Advance(u *universe, op Op, ok bool) {
 		if up.State == "open" || up.State == "failed" {
 			up.State = "cancelled"
 		}
+		// cancelling a committed upload is a no-op ("Cancel implementations should allow multiple calls even after a commit")
 	}
 }
 
